@@ -204,7 +204,16 @@ def main():
     notes = []
     verus_results = []
     twin_results = []
-    units = cfg.get('units', [])
+    units = list(cfg.get('units', []))
+    own_units = list(units)
+    # dependency obligations: functions of another unit whose PROVED contracts this property's units assume as stubs
+    # (e.g. the virtqueue contracts below a device driver).  They are checked with the tags of the properties they were proved for.
+    accept = {u: {pid} for u in units}
+    for d in cfg.get('dep_units', []):
+        if d['unit'] not in accept:
+            units.append(d['unit'])
+            accept[d['unit']] = set()
+        accept[d['unit']] |= set(d['props'])
     harnesses = list(cfg.get('kani_quick', []))
     if tier == 'thorough':
         harnesses += [h for h in cfg.get('kani_thorough', []) if h not in harnesses]
@@ -218,7 +227,8 @@ def main():
         futs = []
         for u in units:
             futs.append(('verus', u, ex.submit(safe, run_verus, u, a.repo, outdir, False, 30)))
-            futs.append(('twin', u, ex.submit(safe, run_verus, u, a.repo, outdir, True, 2)))
+            if u in own_units:
+                futs.append(('twin', u, ex.submit(safe, run_verus, u, a.repo, outdir, True, 2)))
         kfut = None
         if harnesses:
             kfut = ex.submit(safe, kanirun.run_cached, a.repo, harnesses, pid,
@@ -251,16 +261,19 @@ def main():
         smt_ms += r['smt_ms']
         for asm in info['assumptions']:
             assumptions.add('%s: %s' % (u, asm))
-        census += [dict(c, unit=u) for c in info['census'] if pid in c['label'].split(':')[0].split(',')]
+        acc = accept[u]
+        census += [dict(c, unit=u) for c in info['census'] if acc & set(c['label'].split(':')[0].split(','))]
         if r['compile_error']:
             msgs = '; '.join('%s (line %s)' % (e['msg'], e['line']) for e in r['errors'][:5])
             noverdict.append('unit %s does not compile under Verus (unsupported construct after extraction?): %s' % (u, msgs))
             continue
-        mine = lambda props: props is None or props == [] or pid in props  # noqa: E731
+        mine = lambda props, acc=acc: props is None or props == [] or bool(acc & set(props))  # noqa: E731
+        dep = u not in own_units
         # functions under contract for this property
         for m in info['map']:
             if mine(m['props']):
-                contracted.append('%s (%s:%d)' % (m['selector'], m['file'], m['src_line']))
+                contracted.append('%s (%s:%d)%s' % (m['selector'], m['file'], m['src_line'],
+                                                    ' [dependency: contract assumed by this property\'s units]' if dep else ''))
         for name, f in r['functions'].items():
             base = name.split('::')[-1]
             props = None
@@ -284,7 +297,8 @@ def main():
                 noverdict.append('unit %s: %s in %s' % (u, e['msg'], e['function']))
             elif e['class'] == 'verification':
                 violations.append({'obligation': obligation_name(u, e), 'backend': 'verus', 'kind': 'verus',
-                                   'message': e['msg'], 'clause': e['text'], 'function': e['function'],
+                                   'message': e['msg'] + (' [dependency obligation: this property\'s units assume the contract of this function]' if dep else ''),
+                                   'clause': e['text'], 'function': e['function'],
                                    'generated_line': e['line'], 'unit_file': info['generated']})
             else:
                 noverdict.append('unit %s: %s (line %s)' % (u, e['msg'], e['line']))
@@ -398,7 +412,7 @@ def main():
         'violations': len(reported),
     }
     if tier == 'thorough' and not a.no_selftest:
-        ev['coverage']['thorough_extras'] = thorough_extras(pid, a.repo, units, outdir)
+        ev['coverage']['thorough_extras'] = thorough_extras(pid, a.repo, own_units, outdir)
     os.makedirs(a.evidence_dir, exist_ok=True)
     # keep a copy of the generated units next to the evidence (ignored by git)
     udir = os.path.join(a.evidence_dir, 'units')
